@@ -137,16 +137,18 @@ def count_lines(path):
     return n
 
 
-def tlc_mc(spec, cfg, wd, workers=8, timeout=1800, xmx="8g", extra=None, simulate=None, env=None):
+def tlc_mc(spec, cfg, wd, workers=8, timeout=1800, xmx="12g", extra=None, simulate=None, env=None, coverage=True):
     """Model-check spec/<spec>.tla with spec/<cfg>.cfg. Returns dict(ok, states, distinct, depth, cases, coverage, out)."""
     meta = os.path.join(wd, "meta-" + cfg)
     e = {"JAVA_TOOL_OPTIONS": "-Xss512m -Xmx%s" % xmx}
     if env:
         e.update(env)
     cmd = ["tlc", "-workers", str(workers), "-metadir", meta, "-cleanup", "-noGenerateSpecTE",
-           "-coverage", "1", "-config", os.path.join(SPEC, cfg + ".cfg")]
+           "-config", os.path.join(SPEC, cfg + ".cfg")]
+    if coverage:
+        cmd += ["-coverage", "1"]
     if simulate:
-        cmd += ["-simulate", simulate]
+        cmd += ["-simulate", simulate, "-depth", "12", "-seed", str(seed())]
     if extra:
         cmd += extra
     cmd.append(os.path.join(SPEC, spec + ".tla"))
